@@ -20,9 +20,23 @@ type Case struct {
 	FailF  int    `json:"fail_file"`
 	FailK  int    `json:"fail_stmt"`
 	Latest int    `json:"latest,omitempty"`
+	// Kind of the statement placed at (FailF, FailK): "" = the engine rejects it; "inspect_scale" /
+	// "inspect_fk" = the engine accepts it but atlas cannot inspect the result, so the replay succeeds
+	// and reading the state back fails afterwards.
+	Kind string `json:"kind,omitempty"`
 }
 
 const failing = "INSERT INTO no_such_table VALUES (1)"
+
+func failingStmt(c Case) string {
+	switch c.Kind {
+	case "inspect_scale":
+		return "CREATE TABLE prices (id integer NOT NULL PRIMARY KEY, amount decimal(10, 2.5))"
+	case "inspect_fk":
+		return "CREATE TABLE selfref (id integer NOT NULL PRIMARY KEY, pid integer REFERENCES selfref (nope))"
+	}
+	return failing
+}
 
 func stmt(f, i int) string {
 	return fmt.Sprintf("CREATE TABLE t%d_%d (id integer NOT NULL PRIMARY KEY, v text)", f+1, i+1)
@@ -34,7 +48,7 @@ func dirFiles(c Case) map[string]string {
 		var b strings.Builder
 		for i := 0; i < n; i++ {
 			if f == c.FailF && i == c.FailK {
-				b.WriteString(failing + ";\n")
+				b.WriteString(failingStmt(c) + ";\n")
 			} else {
 				b.WriteString(stmt(f, i) + ";\n")
 				if i == 0 {
@@ -54,7 +68,7 @@ func sqlFile(c Case, variant int) string {
 	var b strings.Builder
 	for i := 0; i < c.Shape[0]; i++ {
 		if c.FailF == 0 && i == c.FailK {
-			b.WriteString(failing + ";\n")
+			b.WriteString(failingStmt(c) + ";\n")
 		} else {
 			b.WriteString(stmt(variant, i) + ";\n")
 			if i == 0 {
@@ -254,18 +268,24 @@ func cases(tier string) []Case {
 				}
 			}
 			for _, p := range poss {
-				for _, cmd := range dirCmds {
-					if cmd == "migrate_lint" {
-						for latest := 1; latest <= len(sh); latest++ {
-							cs = append(cs, Case{cmd, dev, sh, p.f, p.k, latest})
-						}
-						continue
-					}
-					cs = append(cs, Case{cmd, dev, sh, p.f, p.k, 0})
+				kinds := []string{""}
+				if p.f >= 0 && dev == "empty" {
+					kinds = []string{"", "inspect_scale", "inspect_fk"}
 				}
-				if p.f <= 0 {
-					for _, cmd := range fileCmds {
-						cs = append(cs, Case{cmd, dev, sh[:1], p.f, p.k, 0})
+				for _, kind := range kinds {
+					for _, cmd := range dirCmds {
+						if cmd == "migrate_lint" {
+							for latest := 1; latest <= len(sh); latest++ {
+								cs = append(cs, Case{cmd, dev, sh, p.f, p.k, latest, kind})
+							}
+							continue
+						}
+						cs = append(cs, Case{cmd, dev, sh, p.f, p.k, 0, kind})
+					}
+					if p.f <= 0 {
+						for _, cmd := range fileCmds {
+							cs = append(cs, Case{cmd, dev, sh[:1], p.f, p.k, 0, kind})
+						}
 					}
 				}
 			}
@@ -298,7 +318,7 @@ func classify(c Case, problems []string) string {
 
 func Run(r *report.Run) {
 	defer clih.Cleanup()
-	r.Rule = "real CLI with a SQLite file as dev database: commands {migrate diff, migrate validate, migrate lint --latest N, schema apply --to file.sql / file.hcl, schema diff file.sql file.sql, schema inspect file.sql} x dev state {empty, table with rows, view only; thorough: table+trigger} x migration directory / schema file shapes (tables, indexes, views and triggers) with a really failing statement at every position (and none); dev database and directory read before/after by our own connection / file reads; non-trivial = every case; distinct = the case tuple"
+	r.Rule = "real CLI with a SQLite file as dev database: commands {migrate diff, migrate validate, migrate lint --latest N, schema apply --to file.sql / file.hcl, schema diff file.sql file.sql, schema inspect file.sql} x dev state {empty, table with rows, view only; thorough: table+trigger} x migration directory / schema file shapes (tables, indexes, views and triggers) with, at every position (and nowhere), a statement the engine rejects or one it accepts but atlas cannot inspect (the replay succeeds, reading the state back fails); dev database and directory read before/after by our own connection / file reads; non-trivial = every case; distinct = the case tuple"
 	r.Assumptions = []string{"`migrate diff` may add one file and rewrite atlas.sum when it succeeds; nothing else may change in the directory"}
 	cs := cases(r.Tier)
 	res := make([][]string, len(cs))
